@@ -172,7 +172,10 @@ func (in *interner) toks_(v tla.Value) []*Tok {
 type TxCtx struct {
 	Ver  int32
 	Lock uint32
-	Seq  uint32
+	Seq  uint32 // sequence of the executing input
+	NIn  int    // number of inputs (1 or 2)
+	Idx  int    // index of the executing input
+	OSeq uint32 // sequence of the other input
 }
 
 // Tables holds what TLC printed for the binder: contexts and flag sets.
@@ -210,7 +213,8 @@ func parseTables(out string) (*Tables, error) {
 		cx := v.Seq()[1]
 		for _, k := range cx.Domain() {
 			r := cx.Apply(k)
-			t.Ctx[k.Str()] = TxCtx{Ver: int32(r.F("ver").Int()), Lock: pairVal(r.F("lock")), Seq: pairVal(r.F("seq"))}
+			t.Ctx[k.Str()] = TxCtx{Ver: int32(r.F("ver").Int()), Lock: pairVal(r.F("lock")), Seq: pairVal(r.F("seq")),
+				NIn: r.F("nin").Int(), Idx: r.F("idx").Int(), OSeq: pairVal(r.F("oseq"))}
 		}
 		fl := v.Seq()[2]
 		for _, k := range fl.Domain() {
